@@ -154,7 +154,12 @@ func (s *socket) Construct(id string, server BaseServer, transport transports.Tr
 
 // Called upon transport considered open.
 func (s *socket) onOpen() {
-	s.SetReadyState("open")
+	// the transport's reader and the request watcher run already: a session closed
+	// between setTransport and here must stay closed, not be reopened
+	if !s.readyState.CompareAndSwap("opening", "open") {
+		socket_log.Debug("transport closed before the session was opened")
+		return
+	}
 
 	// sends an `open` packet
 	s.Transport().SetSid(s.id)
